@@ -354,6 +354,13 @@ func repairedShapes(v *VPkg, o *VObj) []string {
 			if m.Name == "String" && !(len(m.Params) == 0 && len(m.Results) == 1 && m.Results[0].IsStr) {
 				out = append(out, "String method of another signature")
 			}
+			for _, p := range append(append([]VParam{}, m.Params...), m.Results...) {
+				for _, d := range p.Deps {
+					if d != v.ImportPath && d != v.Path && !contains(v.Direct, d) {
+						out = append(out, "wrapper method naming a package the extracted package does not import")
+					}
+				}
+			}
 		}
 	}
 	return out
